@@ -101,6 +101,8 @@ func main() {
 		os.Exit(cmdCheck(os.Args[2:]))
 	case "replay":
 		os.Exit(cmdReplay(os.Args[2:]))
+	case "tables":
+		os.Exit(cmdTables(os.Args[2:]))
 	case "list":
 		l, err := loadRepo(os.Args[2])
 		if err != nil {
